@@ -75,7 +75,7 @@ Proof.
   unfold expand_items. intros H.
   destruct (h_auto h) eqn:Hu; [discriminate|]. split; [reflexivity|].
   inv_ok H. destruct a as [bitems fl]. inv_ok H0.
-  unfold output_for_impl in H1. simpl ia_opts in H1. simpl ia_kind in H1.
+  unfold output_for_impl in H1. destruct (path_has_arguments tp); [discriminate H1|]. simpl ia_opts in H1. simpl ia_kind in H1.
   inv_ok H1. destruct a0 as [fns0 tg]. inv_ok H0. inv_ok H1. injection H0 as <-.
   exists bitems, fl, a, fns0, tg, a0, a1.
   repeat split; try assumption.
